@@ -16,6 +16,7 @@ VARIANTS = {
     "amd64": (SAN_FLAGS, ["-DENABLE_SM2_AMD64=ON"]),
     "aesni": (SAN_FLAGS + " -march=native", ["-DENABLE_SM4_AESNI=ON"]),
     "avx2": (SAN_FLAGS + " -march=native", ["-DENABLE_SM4_AVX2=ON"]),
+    "sse": (SAN_FLAGS + " -mssse3", ["-DENABLE_SM3_SSE=ON"]),
     "fast": ("-O2 -g -DGMSSL_VERIF", []),
     "tsan": ("-O1 -g -fsanitize=thread -DGMSSL_VERIF", []),
 }
